@@ -441,7 +441,7 @@ def pushes(prog, rep, tag):
         ln = pr.of_operand(fl[0].args[0])
         mins = [c for c in b.calls() if (c.decl_s or "").endswith("::min")]
         # the written slice is bytes[0..len] with the same len
-        idx = [c for c in b.calls() if c.is_("Index::index") and any(x[0] == "agg" and x[1] == "Range" for x in pr.of_operand(c.args[1]))]
+        idx = [c for c in b.calls() if c.is_("Index::index") and any(x[0] == "agg" and x[1] in ("Range", "RangeTo") for x in pr.of_operand(c.args[1]))]
         ok = len(mins) >= 1 and any(x[0] == "call" and x[1].endswith("::min") for x in ln) and bool(idx) and any(any(x[0] == "call" and x[1].endswith("::min") for x in pr.of_operand(c.args[1])) for c in idx)
     rep.ob(P, "CreatedFrame::push_pdu_slice_rest:length-is-slice-written" + tag, ok, "push_pdu_slice_rest announces min(space, data length) and writes exactly bytes[0..that]", loc=b.span, how="dataflow")
 
